@@ -21,6 +21,8 @@ def table_inconsistency(tab_spec: str, pf: float, pi: float) -> float:
     ms = np.asarray(fp.pvt_props["m-scaled"], dtype=float)
     al = np.asarray(fp.pvt_props["alpha"], dtype=float)
     rho = np.asarray(fp.pvt_props["density"], dtype=float)
+    _o = np.argsort(p)
+    p, ms, al, rho = p[_o], ms[_o], al[_o], rho[_o]
     ok = (p >= pf) & (p <= pi) & np.isfinite(ms) & np.isfinite(al)
     idx = np.nonzero(ok)[0]
     idx = idx[(idx > 0) & (idx < len(p) - 1)]
